@@ -741,6 +741,7 @@ func c13Gen(rng *rand.Rand, tier string, w *bufio.Writer) {
 		"ap 81a178cf8000000000000000 gt:78:cf0000000000000001 set:7a:01",       // 2^63 > 1 (uint64) ? yes
 		"ap 81a178cfffffffffffffffff le:78:05 set:7a:01",                       // MaxUint64 <= 5 ? no
 		"ap 81a17801 - set:78:d0cc inc:78:d001",                                // SET int8 then INC: stays int8
+		"ap 81a17801 - set:78:cd0100 inc:78:01",                                // SET uint16 256 then INC 1: stays uint16
 		"ap 81a178ca3f800000 - inc:78:ca3f800000 inc:78:cb3ff0000000000000",    // float32 INC twice: stays float32
 		"ap 81a178ccfe - inc:78:01 inc:78:01",                                  // uint8 wraps twice, stays uint8
 		"ap 81a17493010203 - rmat:745b2d315d:",                                 // t[-1]
